@@ -223,6 +223,18 @@ def tree2parameter(
         raise exceptions.UnknownTreeTypeError(datatype=s.data, atom="Parameter")
 
 
+def _same_definition(a: atoms.Atom, b: atoms.Atom) -> bool:
+    """True if two atoms with the same name define the same thing:
+    the same kind of atom with the same value (for assignments: the same expression tree)"""
+    if type(a) is not type(b):
+        return False
+    if isinstance(a, atoms.Assignment) and isinstance(b, atoms.Assignment):
+        if a.value is None or b.value is None:
+            return a.value is b.value
+        return a.value.tree == b.value.tree
+    return bool(a.value == b.value)
+
+
 class TreeToODE(lark.Transformer):
     """Transform a lark tree to an ODE
 
@@ -310,6 +322,7 @@ class TreeToODE(lark.Transformer):
         # breakpoint()
 
         comments = []
+        seen: dict[str, atoms.Atom] = {}
         for line in s:  # Each line in the block
             if isinstance(line, atoms.Comment):
                 comments.append(line)
@@ -320,6 +333,16 @@ class TreeToODE(lark.Transformer):
                 continue
 
             for atom in line:  # State, Parameters or Assignment
+                # A name may be repeated only with the very same definition. The sets
+                # below would otherwise silently keep one of two conflicting definitions
+                # (assignments compare equal whenever they have the same dependencies).
+                previous = seen.setdefault(atom.name, atom)
+                if previous is not atom:
+                    if not _same_definition(previous, atom):
+                        raise exceptions.DuplicateSymbolError({atom.name})
+                    if previous.components == atom.components:
+                        # Identical repetition (at most the annotation differs)
+                        continue
                 for component in atom.components:
                     components[component][mapping[type(atom)]].add(atom)
 
